@@ -10,10 +10,12 @@ var (
 	// a commit line as printed by --pretty=format:[%h] %aN %ad %s --date=short; the subject is
 	// free text and may itself contain bracketed hashes, the author's name or dates.
 	// A numstat line has its three fields separated by exactly one tab each, so that a path may
-	// begin with a blank; runs of blanks are accepted for logs pasted from a terminal
+	// begin with a blank; runs of blanks are accepted for logs pasted from a terminal.
+	// In the rename notation dir/{old => new}/rest the parts in front of the braces and behind them
+	// are whole directory components, so a brace inside a name (`${x}.txt`) is not one of the notation
 	header            = `^\[([\da-f]{5,40})\]\s(.*?)\s(\d{4}-\d{2}-\d{2})\s?(.*)$`
 	changes           = `^([\d-]+)(?:\t|\s+)([\d-]+)(?:\t|\s+)(.*)`
-	complexMoveRegStr = `(.*)\{(.*)\s=>\s(.*)\}(.*)`
+	complexMoveRegStr = `^(.*/)?\{(.*)\s=>\s(.*)\}(/.*)?$`
 	basicMoveRegStr   = `(.*)\s=>\s(.*)`
 	changeModel       = `\s(\w{1,6})\s(mode 100(\d){3})?\s?(.*)(\s\(\d{2}%\))?`
 
